@@ -154,6 +154,49 @@ def total(summand, n, hint="S"):
     return make(summand, n, hint).t
 
 
+def sums_in(term):
+    """the Σ-terms occurring in a z3 term: list of Sum objects (so a harness can state lemma instances about the sums the *code*
+    built, whatever expression it built them with)"""
+    by_decl = {sf.fn.get_id(): sf for sf in _REG.values()}
+    out, seen = [], set()
+
+    def rec(e):
+        if e.get_id() in seen:
+            return
+        seen.add(e.get_id())
+        if z3.is_quantifier(e):
+            return rec(e.body())
+        if z3.is_app(e):
+            sf = by_decl.get(e.decl().get_id())
+            if sf is not None:
+                args = e.children()
+                out.append(Sum(sf, args[:-1], args[-1]))
+            for c in e.children():
+                rec(c)
+    rec(term)
+    return out
+
+
+def congruent_sums(ctx, term, spec, n, name="congruence"):
+    """for every Σ-term over [0, n) inside `term` whose summand provably equals spec(t) for all t < n (quick proof attempt, no
+    obligation recorded): assume it equals Σ spec (instance of the proved congruence schema).  Returns how many were linked."""
+    nt = to_term(n)
+    sg = make(spec, nt)
+    t = bv("t")
+    k = 0
+    for s in sums_in(term):
+        if not (s.n.eq(nt) or z3.simplify(s.n == nt).eq(z3.BoolVal(True))):
+            continue
+        if s.t.eq(sg.t):
+            k += 1
+            continue
+        prem = z3.ForAll([t], z3.Implies(z3.And(t >= 0, t < nt), to_real(s.summand(t)) == to_real(to_term(spec(t)))))
+        if ctx.probe(core.SBool(prem)):
+            ctx.assume(z3.Implies(nt >= 0, s.t == sg.t), "lemma:congruence")
+            k += 1
+    return k
+
+
 # -- definition instances -------------------------------------------------------------------------------
 
 def unfold(ctx, s: Sum, m):
